@@ -355,3 +355,13 @@ func SetFile(path, content string, readable bool) {
 // WatchWrites: like Watch, but only writes to the object must happen under a lock (objects that
 // are read without locks by design, such as the shared configuration).
 func WatchWrites(x interface{}) {}
+
+// WatchSharedWrites (engine): from here to Unwatch every write to an object that already exists
+// now must happen with a mutex held -- such an object outlives the audited call and a concurrent
+// call reaches it too. Objects allocated afterwards are local to the call. Natively a no-op (the
+// twin runs the call from several goroutines under the race detector).
+func WatchSharedWrites() {}
+
+// LocksHeld (engine): how many mutexes (read or write) the calling path holds. Natively 0: the
+// twin probes liveness instead.
+func LocksHeld() int { return 0 }
